@@ -133,6 +133,7 @@ Silent ==
      \/ (~HeadSends /\ StRecv)
      \/ RtForward
      \/ \E h \in Subs : SubUnsubEnqueue(h) \/ SubDrainOne(h)
+     \/ \E h \in Subs : LagCloses(h)              \* latitude of C05 (Client.tla): a lagged stream may end at once
      \/ StNoticeClosed \/ RtNoticeClosed \/ RtHandOver \/ StCloseFront \/ StHandOver \/ StEnd \/ WdRecv \/ ManagerDrop
 
 TNext == T_Reset \/ T_FeStart \/ T_WireOut \/ T_PeerSend \/ T_WireIn \/ T_FeDone \/ T_FeAbandon \/ T_SubNext \/ T_SubEnd \/ T_SubUnsub
